@@ -207,6 +207,15 @@ def ret_facts(facts, crates=None):
                             here.add((path, o2, ("Lp", b2[1], tuple(b2[2]))))
                             if o2 == "<":
                                 here.add((path, "<=", ("Lp", b2[1], tuple(b2[2]))))
+                    # ... and an integer parameter that the function never assigns (`end < num_points`)
+                    for pi in range(1, b.argc + 1):
+                        if iv.tr[pi] is None or pi == t or b.defs().get(pi):
+                            continue
+                        if iv.has_rel(st, t, "<", pi):
+                            here.add((path, "<", ("Ip", pi)))
+                            here.add((path, "<=", ("Ip", pi)))
+                        elif iv.has_rel(st, t, "<=", pi):
+                            here.add((path, "<=", ("Ip", pi)))
                     for path2, t2 in terms.items():
                         if path2 != path and t2 is not None:
                             if iv.has_rel(st, t, "<", t2):
